@@ -1,4 +1,5 @@
 import BeyondVerif.Model.Node
+import BeyondVerif.Model.NodeSmall
 import BeyondVerif.Model.Registry
 import BeyondVerif.Model.RegistryStr
 import BeyondVerif.Generated.RegSites
@@ -282,6 +283,13 @@ def closureOp (args : List String) : String :=
     | _, _, _ => "bad-op"
   | _ => "bad-op"
 
+/-- `closed4` : the certificate of `Props/C20Small.lean` for the nodes 0..3 (and 0..2), evaluated by the compiled model:
+number of states of the enumerated set and the value of `closedB` (hypothesis of `four_nodes_shortest_of_certificate`) -/
+def closed4Op : String :=
+  let t4 := BeyondVerif.C20.reachable BeyondVerif.C20.pairs4
+  let t3 := BeyondVerif.C20.reachable BeyondVerif.C20.pairs3
+  s!"states4={t4.toList.length} closed4={if BeyondVerif.C20.closedB BeyondVerif.C20.pairs4 t4 then 1 else 0} states3={t3.toList.length} closed3={if BeyondVerif.C20.closedB BeyondVerif.C20.pairs3 t3 then 1 else 0}"
+
 /-- `sites` : labels of the regenerated registration sites, in the order of their indices -/
 def sitesOp : String := joinWith ";" (BeyondVerif.Generated.regSites.map (·.1))
 
@@ -291,6 +299,7 @@ def handle : List String → Option String
   | "reg" :: args => some (regOp args)
   | "sreg" :: args => some (sregOp args)
   | "closure" :: args => some (closureOp args)
+  | "closed4" :: _ => some closed4Op
   | "goodname" :: args => some (goodnameOp args)
   | "linkkey" :: args => some (linkkeyOp args)
   | "sites" :: _ => some sitesOp
